@@ -279,6 +279,7 @@ const PARSER_SITES: &[SiteRow] = &[
     SiteRow { func: "string::parse_strings", kind: "panic", max: 3, discharge: "D.kind", why: "unreachable!: parse_string yields only the node kinds of its literal kind (bytes / str / f-string partition, C06.P1)" },
     SiteRow { func: "string::parse_strings::{closure#3}", kind: "TextRange::new", max: 1, discharge: "D.range", why: "as above" },
     SiteRow { func: "string::parse_strings::{closure#3}", kind: "drain", max: 1, discharge: "D.full", why: "drain(..) of the full range never panics" },
+    SiteRow { func: "<grammar actions>", kind: "TextRange::new", max: 400, discharge: "C03.R1", why: "a node range written as TextRange::new(@L, @R) instead of (@L..@R).into(): the same constructor, discharged by the same rule (the captures bracket a non-nullable symbol run, C03.R1 / C02.R1)" },
     SiteRow { func: "<grammar actions>", kind: "Option::unwrap", max: 26, discharge: "C03.A1", why: "each unwrap in an action is a range-end chain (C02.R1) or guarded by a non-emptiness fact of the grammar" },
 ];
 
